@@ -376,6 +376,8 @@ class controller_nonMPI(Controller):
         elif self.params.predict_type == 'fine_only':
             # do a fine sweep only
             for S in local_MS_running:
+                # a predictor sweep is a first sweep: do not use the coefficients a variable preconditioner was left with
+                S.levels[0].sweep.updateVariableCoeffs(1)
                 S.levels[0].sweep.update_nodes()
 
         # elif self.params.predict_type == 'libpfasst_style':
@@ -461,6 +463,8 @@ class controller_nonMPI(Controller):
 
             # end this with a fine sweep
             for S in local_MS_running:
+                # a predictor sweep is a first sweep: do not use the coefficients a variable preconditioner was left with
+                S.levels[0].sweep.updateVariableCoeffs(1)
                 S.levels[0].sweep.update_nodes()
 
         elif self.params.predict_type == 'fmg':
